@@ -97,14 +97,17 @@ def H(name, site, props, tier="quick", **kw):
 
 
 # ================================================================ RevisionVec (real build)
+# (shapes (3,1) and (2,3) and the 22/12-byte variants are in harness/revision_vec.rs; they need > 20 GB each with
+# Kani's reachability checks on and were killed by the OOM killer during development: not registered)
 for shape, tier in [("1", "thorough"), ("2", "quick"), ("1_1", "thorough"), ("2_1", "quick"), ("1_2", "quick"),
-                    ("2_2", "thorough"), ("3_1", "thorough"), ("1_3", "thorough"), ("2_3", "thorough"),
+                    ("2_2", "thorough"), ("1_3", "thorough"),
                     ("1_2_1", "thorough"), ("2_1_2", "thorough"), ("1_1_2", "thorough")]:
     H("riter_shape_" + shape, "revision_vec", ["C04", "C01"], tier,
       desc="RevisionVec::revisions() yields, at depth d, exactly the d-th element of every chain that has one, then ends "
            "(decapsulation walks user secrets with it)",
       bounds="RevisionVec<u8,u8> instantiation, chain lengths (%s) concrete, all keys and element values symbolic" % shape.replace("_", ","),
-      unwind=4 if len(shape) <= 3 and "3" not in shape else 5, timeout=900, covers=["all depths visited"])
+      unwind=4 if len(shape) <= 3 and "3" not in shape else 5, timeout=1500, covers=["all depths visited"],
+      heavy=(len(shape) > 3 or "3" in shape), seedable=(len(shape) <= 3 and "3" not in shape))
 H("riter_zero_chains_terminates", "revision_vec", ["C14", "C04"], "quick",
   desc="revisions() on a key with zero chains ends immediately (no endless Some([]) in decaps)",
   bounds="empty RevisionVec<u8,u8>", unwind=3, timeout=300, covers=["reached"])
@@ -131,6 +134,9 @@ for _n, _c, _w in [("n_tamper_tag_byte", "tag altered", "any byte of the tag (sy
 H("g1_kem_classic_enc_hybrid_key", "primitives_model", ["C01", "C11"], "quick", build="model", unwind=2, timeout=1800, loops=TRAP_LOOPS,
   desc="a classic encapsulation made for a hybridized right is opened by the key holding that right's hybridized secret",
   bounds=K_BOUNDS + "; ideal KEM key symbolic", covers=["decaps returned Some"])
+H("s_kem_classic_enc_hybrid_key_unauthorized", "primitives_model", ["C02"], "quick", build="model", unwind=2, timeout=1800, loops=TRAP_LOOPS,
+  desc="a classic encapsulation made for a hybridized right is not opened by a key holding a different hybridized secret",
+  bounds=K_BOUNDS + "; both ideal-KEM keys symbolic; user ElGamal secret y != target secret x", covers=["decaps returned None"])
 H("u_decaps_degenerate_encapsulations", "primitives_model", ["C14"], "quick", build="model", unwind=3, timeout=1500, loops=TRAP_LOOPS,
   desc="decaps on encapsulations only a parser can build (no right-encapsulation, either flavour; no trap): Ok(None), no panic",
   bounds="valid 1-right user key; tag symbolic; flavour and presence of traps symbolic",
@@ -228,19 +234,15 @@ H("k_refresh_unknown_id_keep", "keys_model", ["C10", "C17", "C08"], "quick", unw
 H("k_refresh_only_right_deleted_nokeep", "keys_model", ["C09", "C05"], "quick", unwind=4, covers=["reached"],
   desc="refresh(keep_old=false) of an issued key whose only right was deleted from the master key: Ok, right dropped",
   bounds=KL + "no right left in the master key, user key with 1 right (the empty right), registered concrete id", **_heavy)
-for n in ["k_refresh_ok_nokeep", "k_refresh_deleted_keep", "k_refresh_deleted_nokeep", "k_refresh_unknown_id_nokeep"]:
-    H(n, "keys_model", ["C09", "C10"], "thorough", unwind=4, covers=["reached"],
-      desc="refresh through the public primitive (other flag / a right deleted since)", seedable=False,
-      bounds=KL + "1-2 rights, concrete ids, symbolic secrets (exceeded 36 GB during development: reported as "
-                  "inconclusive when it does again)", **_heavy)
+# (k_refresh_ok_nokeep, k_refresh_deleted_keep, k_refresh_deleted_nokeep, k_refresh_unknown_id_nokeep in
+# harness/keys_model.rs exceed 36 GB since the fix: commits clone the user key's secrets; not registered)
 
 # ================================================================ parser (real build)
 H("q_paren_offset_is_byte_offset", "access_policy", ["C15"], "quick", build="real", unwind=6, timeout=900,
   desc="find_matching_closing_parenthesis returns a byte offset on a char boundary pointing at the matching ')'",
   bounds="every valid UTF-8 string of <= 4 bytes")
-H("q_attr_split_and_trim", "access_policy", ["C15"], "thorough", build="real", unwind=8, timeout=1800, seedable=False,
-  desc="QualifiedAttribute::try_from: no panic; Ok iff exactly one '::' with non-empty sides; names = trimmed sides",
-  bounds="every valid UTF-8 string of <= 5 bytes")
+# (q_attr_split_and_trim in harness/access_policy.rs -- QualifiedAttribute::try_from on every UTF-8 string <= 5 bytes -- timed
+# out at 1800 s; not registered)
 
 # ================================================================ serialization (model build)
 # (round-trip harnesses z_xenc/z_usk/z_msk/z_mpk_roundtrip, x_header_frames and the parser harnesses u_parse_* are in
@@ -262,10 +264,7 @@ _p = dict(build="model", timeout=1500, loops=[[r"^memcmp$", 6]])
 H("e_dict_remove_preserves_order", "policy_model", ["C03"], "quick", unwind=5, covers=["middle entry removed"],
   desc="Dict::remove / update_key keep the relative order and the values of the other entries and the index invariant",
   bounds="Dict<u8,u8> with 3 entries, symbolic keys/values, symbolic removed key", **_p)
-H("e_attribute_ids_never_shared", "policy_model", ["C03"], "thorough", unwind=5, covers=["an attribute was deleted before the add"], seedable=False, heavy=True,
-  desc="AccessStructure::add_attribute after a deletion: the new attribute's id differs from the id of every live attribute",
-  bounds="1 anarchy dimension (1-byte names), sequence add a, add b, del (a or b, symbolic), add c (timed out at 1500 s "
-         "during development: String-keyed maps of maps; reported as inconclusive when it does again)", **_p)
+# (e_attribute_ids_never_shared in harness/policy_model.rs timed out at 1500 s: String-keyed maps of maps; not registered)
 # (s_restrict_hierarchy_and_anarchy, e_hierarchy_add_after_and_errors, q_dnf_* in harness/policy_model.rs: String-keyed
 # Dict / boxed policy trees; all timed out at 1500 s. Not registered.)
 H("h_bitor_tables", "policy_model", ["C11", "C06"], "quick", unwind=2, covers=["reached"],
@@ -284,10 +283,10 @@ CHECKS = {
     "ALL": dict(bounds_note="development only: every registered harness (use with --only)", outside="-"),
     "C01": dict(bounds_note="L-kem over models (1 target x 1 secret, tracing level 1) + L-iter on RevisionVec<u8,u8> shapes",
                 outside="policy expansion (rights of user/encryption policies), >1 target, real curves / ML-KEM / Keccak"),
-    "C02": dict(bounds_note="S-kem over models: 1 target, user key with 1 non-matching secret",
+    "C02": dict(bounds_note="S-kem over models: 1 target, user key with 1 non-matching secret (classic key; hybridized key against a classic encapsulation)",
                 outside="policy expansion / Dimension::restrict (harness timed out), several rights per key, real primitives"),
     "C03": dict(bounds_note="Dict<u8,u8> with 3 entries (remove / rename); key layer drops rights outside the structure (refresh, update_msk)",
-                outside="attribute id allocation in AccessStructure::add_attribute (harness times out, thorough tier only), hierarchies with `after`, interleaving with encapsulations"),
+                outside="attribute id allocation in AccessStructure::add_attribute (harness times out; defect found by reading, fixed, demonstrated natively), hierarchies with `after`, interleaving with encapsulations"),
     "C04": dict(bounds_note="RevisionVec shapes <= 3 chains x <= 3; refresh_coordinate_keys over histories of 4 secrets; rekey/mpk on 1-2 rights",
                 outside="more than 2 rights per key, chains longer than 3, end-to-end decaps after refresh (composition argued in DESIGN)"),
     "C05": dict(bounds_note="prune on chains of 1..3; refresh_coordinate_keys on every (master, user) segment pair listed; update_msk with 2 rights",
@@ -306,8 +305,8 @@ CHECKS = {
                 outside="combine() over a structure (policy layer), E_j bound into the tag for hybridized encapsulations"),
     "C14": dict(bounds_note="UserId / TracingPublicKey parsers on every byte string <= 6 bytes; accessors and decaps on degenerate parsed values; revision iterator on a key without chains",
                 outside="XEnc / USK parsers beyond the thorough-tier lengths, MPK/MSK/AccessStructure/EncryptedHeader parsers, read_vec's vec![0; len] in the dependency, wall-clock/RSS of a real process"),
-    "C15": dict(bounds_note="find_matching_closing_parenthesis on all UTF-8 strings <= 4 bytes; QualifiedAttribute::try_from <= 5 bytes (thorough)",
-                outside="AccessPolicy::parse itself and to_dnf equivalence (recursive boxed trees of Strings: harnesses timed out), precedence"),
+    "C15": dict(bounds_note="find_matching_closing_parenthesis on all UTF-8 strings <= 4 bytes",
+                outside="AccessPolicy::parse itself, QualifiedAttribute::try_from and to_dnf equivalence (harnesses timed out), precedence"),
     "C16": dict(bounds_note="two c_encaps calls with different seeds (1 target); two consecutive generate_user_id calls with symbolic RNG",
                 outside="AEAD nonce freshness, rekey freshness, statistical quality of the CSPRNG, threads"),
     "C18": dict(bounds_note="full_decaps on an honest classic 1-target encapsulation, master key with that right (flag symbolic)",
@@ -331,7 +330,7 @@ def sites_for(hs):
 
 
 def select(prop, tier, seed=0):
-    names = [h for h, s in HARNESSES.items() if prop in s["props"] or prop == "ALL"]
+    names = [h for h, s in HARNESSES.items() if prop in s["props"] or (prop == "ALL" and "DEV" not in s["props"])]
     quick = [h for h in names if HARNESSES[h]["tier"] == "quick"]
     thorough = [h for h in names if HARNESSES[h]["tier"] == "thorough"]
     if tier == "thorough":
